@@ -46,7 +46,8 @@ public:
 
     void finish() {
         for (ndsize_t i = 0; i < nelms; i++) {
-            data[i] = buffer[i];
+            // unwritten variable-length strings come back as null pointers
+            data[i] = (buffer[i] != nullptr) ? buffer[i] : "";
         }
     }
 
